@@ -29,6 +29,12 @@ type HRun struct {
 	Flags    []string
 	Label    string
 	NoReplay bool // harness cannot be compiled natively (engine-only stubs)
+	// Deepen: when no path of a scheduled harness reaches its end because every
+	// path was cut at the scheduling-point bound (a vacuous run), the run is
+	// repeated with Params[DeepenParam] raised by DeepenStep, at most twice.
+	// The bound actually used is what the run is labelled with.
+	DeepenParam int
+	DeepenStep  int
 }
 
 type PropSpec struct {
@@ -215,8 +221,22 @@ func cmdCheck(args []string) int {
 				outs[i] = runOut{run: r, err: err}
 				return
 			}
-			defer e.Close()
-			outs[i] = runOut{run: r, res: e.Run()}
+			res := e.Run()
+			e.Close()
+			for try := 0; try < 2 && r.DeepenStep > 0 && vacuousByBound(res); try++ {
+				// raise the scheduling-point bound and run again
+				r.Params = append([]int(nil), r.Params...)
+				r.Params[r.DeepenParam] += r.DeepenStep
+				cfg.Params = r.Params
+				cfg.Deadline = time.Now().Add(runBudget(tier))
+				e2, err := NewEngine(ld, cfg)
+				if err != nil {
+					break
+				}
+				res = e2.Run()
+				e2.Close()
+			}
+			outs[i] = runOut{run: r, res: res}
 		}(i)
 	}
 	wg.Wait()
@@ -985,4 +1005,13 @@ func runBudget(tier string) time.Duration {
 		return 40 * time.Minute
 	}
 	return 5 * time.Minute
+}
+
+// vacuousByBound: nothing reached the end of the harness, nothing was found,
+// and paths were cut at the scheduling-point bound.
+func vacuousByBound(r *RunResult) bool {
+	if r == nil || r.Reach["end"] > 0 || r.Reach["outside-domain"] > 0 || len(r.Violations) > 0 || len(r.Inconclusive) > 0 {
+		return false
+	}
+	return r.Stubs["schedule: path cut at the scheduling-point bound"] > 0
 }
